@@ -52,5 +52,8 @@ Conforms(in, obs) ==
      /\ (r.errs > 0 /\ r.sure) => obs.diag
 
 Describe(in) == [words |-> Toks(in.words)]
+\* -nouser / -nogroup and -fls are described by FindSem but fixed by no listed property
+Beyond(in) == \E i \in DOMAIN in.words : \/ in.words[i].k = "fls"
+                                         \/ (in.words[i].k = "test" /\ in.words[i].q.p \in {"nouser", "nogroup"})
 INSTANCE TraceCheck
 =============================================================================
